@@ -246,8 +246,10 @@ ViewP(ps) == [w |-> ps.w, posL |-> ps.posL, negL |-> ps.negL, red |-> ps.red, bn
               pos |-> ReadView(ps.red, ps.posL), neg |-> ReadView(ps.red, ps.negL)]
 View(s) == [q \in DOMAIN s |-> ViewP(s[q])]
 
-Emit == PrintT(ToJson([s |-> View(st),
-                       out |-> {[op |-> o, res |-> {[st |-> View(mo.st), ret |-> mo.ret] : mo \in MApply(st, o)}] :
-                                  o \in Ops(st)}]))
+\* (TLC evaluates invariants also on the states just beyond the depth bound: not printed)
+Emit == TLCGet("level") > MaxDepth \/
+        PrintT(ToJson([s |-> View(st),
+                              out |-> {[op |-> o, res |-> {[st |-> View(mo.st), ret |-> mo.ret] : mo \in MApply(st, o)}] :
+                                         o \in Ops(st)}]))
 
 =============================================================================
